@@ -58,9 +58,9 @@ class Recorder:
         pr = self.obs.project()
         self.last = pr
         st = {"fs": {}, "cf": {}, "del": {}, "info": [], "par": []}
-        st["lk"], st["dr"], st["clk"], st["cdr"] = {}, {}, {}, {}
+        st["lk"], st["dr"], st["clk"], st["cdr"], st["dra"] = {}, {}, {}, {}, {}
         for d in self.D:
-            fl, lk, dr = {}, {}, []
+            fl, lk, dr, dra = {}, {}, [], []
             # names sharing an inode: the first in scan (alphabetical) order is the file, the others are hard links to it
             byino = {}
             for name, f in sorted(pr["fs"].get(d, {}).items(), key=lambda x: x[0].encode("latin1")):
@@ -72,6 +72,8 @@ class Recorder:
                     lk[name] = ["sym", f["to"]]
                 elif f["k"] == "d":
                     dr.append(name)
+                elif f["k"] == "D":
+                    dra.append(name)
                 elif name in hard:
                     lk[name] = ["hard", hard[name]]
                 else:
@@ -80,6 +82,7 @@ class Recorder:
             st["fs"][d] = fl
             st["lk"][d] = lk
             st["dr"][d] = sorted(dr)
+            st["dra"][d] = sorted(dra)
         c = pr["cont"][0]
         if not isinstance(c, dict):
             # snapraid loads the first copy that exists
@@ -392,24 +395,31 @@ class Recorder:
 
     def sync_fault(self, rules, *flags):
         opts = {"force_full": "-F" in flags, "force_empty": "-E" in flags, "force_zero": "-Z" in flags,
-                "nocopy": False, "kill_after": False}
+                "nocopy": False, "kill_after": False, "stop": 0, "prehash": "-h" in flags,
+                "v3": self.a.conf.hash_size != 16 or any(x > 1 for x in self.a.conf.splits)}
+        opts.update(_range(list(flags)))
         r = self.a.run("sync", *flags, rules=rules, trace=True)
         self.last_result = r
         st = self.state()
         kind, pos = self._fault_info(r, st)
         summ = {t[1]: t[2] for t in r.tag("summary") if len(t) > 2}
-        self.lines.append({"e": "SyncFault", "args": {"opts": opts, "now": self.now(), "rules": rules, "flags": list(flags),
+        srcs = {d: {} for d in self.D}
+        for t in r.tag("scan"):
+            if len(t) >= 6 and t[1] == "copy":
+                srcs[str(self.a.conf.disk_names.index(t[4]))][t[5]] = [str(self.a.conf.disk_names.index(t[2])), t[3]]
+        self.lines.append({"e": "SyncFault", "args": {"opts": opts, "now": self.now(), "rules": rules, "flags": list(flags), "srcs": srcs,
                                                        "fkind": kind, "fpos": pos},
                            "state": st, "out": {"rc": r.rc, "io": int(summ.get("error_io", "0") or 0)}})
         return r, kind, pos
 
     def scrub_fault(self, rules, plan="full", *flags):
+        present = self.present_levels()
         r = self.a.run("scrub", "-p", plan, *flags, rules=rules, trace=True, trace_reads=False)
         self.last_result = r
         st = self.state()
         kind, pos = self._fault_info(r, st)
         summ = {t[1]: t[2] for t in r.tag("summary") if len(t) > 2}
-        self.lines.append({"e": "ScrubFault", "args": {"now": self.now(), "rules": rules, "flags": list(flags), "plan": plan,
+        self.lines.append({"e": "ScrubFault", "args": {"now": self.now(), "rules": rules, "flags": list(flags), "plan": plan, "present": present,
                                                         "fkind": kind, "fpos": pos},
                            "state": st, "out": {"rc": r.rc, "io": int(summ.get("error_io", "0") or 0)}})
         return r, kind, pos
